@@ -65,3 +65,727 @@ Proof.
   pose proof H as [Hs He]. rewrite -He. destruct (j_entries j) eqn:E; [done|].
   apply IH, undo1_core. done.
 Qed.
+
+(* ------------------------------------------------------------------ *)
+(* well-formedness of the part of the state the access list depends on *)
+Record wfc (j : jstate) : Prop := {
+  wc_muts : ∀ a, mloc j a;
+  wc_dirty : ∀ a o k d, j_objs j !! a = Some o → o_dirty o !! k = Some d → d ≠ committed j a o k;
+  wc_eager : ∀ a, j_objs j !! a = None → a ∈ j_destruct j ∨ j_db j !! a = None
+}.
+
+Lemma committed_sem j j' a o k : sem_eq j j' → committed j a o k = committed j' a o k.
+Proof. intros (Hd & _ & Hx & _). unfold committed, db_stor. by rewrite Hd Hx. Qed.
+
+Lemma wfc_sem j j' : sem_eq j j' → wfc j → wfc j'.
+Proof.
+  intros H [W1 W2 W3]. pose proof H as (Hd & Ho & Hx & Hm). split.
+  - intros a m. unfold mloc in W1. rewrite -Hm. apply W1.
+  - intros a o k d. rewrite -Ho -(committed_sem j j') //. apply W2.
+  - intros a. rewrite -Ho -Hx -Hd. apply W3.
+Qed.
+
+Lemma czf k v m : mok m → counts_zero (m_add k (stash_k k v m)) = false.
+Proof.
+  intros ((H1 & H2 & H3 & H4 & H5 & H6 & H7) & _). apply counts_zero_false.
+  destruct m as [? ? ? ? ? ? ? sb sn sc]; destruct k; unfold m_add, stash_k; simpl in *;
+    try destruct sb; try destruct sn; try destruct sc; rs; lia.
+Qed.
+
+Lemma mloc_upd j j1 a k v :
+  (∀ b, mloc j b) → j_muts j1 = <[a := m_add k (stash_k k v (mstate_for a j))]> (j_muts j) →
+  ∀ b, mloc j1 b.
+Proof.
+  intros H E b m. rewrite E. destruct (decide (b = a)) as [->|Hne].
+  - rewrite lookup_insert. intros [= <-].
+    assert (Hk : mok (mstate_for a j)).
+    { unfold mstate_for. destruct (j_muts j !! a) eqn:E1; simpl; [by apply (H a)|apply mok0]. }
+    split; [by apply mok_add_stash|by apply czf].
+  - rewrite lookup_insert_ne //. apply H.
+Qed.
+
+(* the journalled primitives every API call is made of *)
+Inductive prim (j : jstate) : jstate → Prop :=
+| P_create a : j_objs j !! a = None → prim j (create_object a j)
+| P_bal a o v : j_objs j !! a = Some o → prim j (obj_set_balance a o v j)
+| P_nonce a o v : j_objs j !! a = Some o → prim j (obj_set_nonce a o v j)
+| P_code a o v : j_objs j !! a = Some o → prim j (obj_set_code a o v j)
+| P_state a o k v : j_objs j !! a = Some o → prim j (obj_set_state a o k v j)
+| P_sd a o : j_objs j !! a = Some o → o_sd o = false → prim j (obj_self_destruct a o j)
+| P_cc a o : j_objs j !! a = Some o → o_new o = false →
+    prim j (j_append (JCreateContract a) (put_obj a (o <| o_new := true |>) j))
+| P_touch a o : a ≠ ripemd → j_objs j !! a = Some o → prim j (touch_change a j)
+| P_other e j' : noncore e = true → sem_eq j' j → j_entries j' = e :: j_entries j → prim j j'.
+
+Lemma prim_undo j j1 : wfc j → prim j j1 → core_eq (undo1 j1) j ∧ ∃ e, j_entries j1 = e :: j_entries j.
+Proof.
+  intros [W1 W2 W3] P. destruct P.
+  - destruct (undo_create_object j a (W1 a) H) as [He Hu]. rewrite Hu. split; [done|by eexists].
+  - destruct (undo_set_balance j a o v (W1 a) H) as [He Hu]. rewrite Hu. split; [done|by eexists].
+  - destruct (undo_set_nonce j a o v (W1 a) H) as [He Hu]. rewrite Hu. split; [done|by eexists].
+  - destruct (undo_set_code j a o v (W1 a) H) as [He Hu]. rewrite Hu. split; [done|by eexists].
+  - destruct (undo_set_state j a o k v (W1 a) H) as [He Hu]; [intros d; by apply W2|].
+    rewrite Hu. split; [done|by eexists].
+  - destruct (undo_self_destruct j a o (W1 a) H H0) as [He Hu]. rewrite Hu. split; [done|by eexists].
+  - destruct (undo_create_contract j a o H H0) as [He Hu]. rewrite Hu. split; [done|by eexists].
+  - destruct (undo_touch j a (W1 a) H) as [He Hu]. rewrite Hu. split; [done|by eexists].
+  - split; [|by eexists]. unfold undo1. rewrite H1.
+    assert (Hm : mutation e = None) by (by destruct e).
+    unfold unmutate. rewrite Hm.
+    pose proof (revert_entry_sem_noncore e j' H) as Hs.
+    split; [|by destruct (revert_entry e j')].
+    eapply sem_eq_trans; [|exact H0]. eapply sem_eq_trans; [|exact Hs].
+    by destruct (revert_entry e j').
+Qed.
+Lemma wfc_upd j j1 a o' :
+  wfc j → j_db j1 = j_db j → j_destruct j1 = j_destruct j →
+  j_objs j1 = <[a := o']> (j_objs j) → (∀ b, mloc j1 b) →
+  (∀ k d, o_dirty o' !! k = Some d → d ≠ committed j1 a o' k) → wfc j1.
+Proof.
+  intros [W1 W2 W3] Hd Hx Ho Hm Hk. split; [done|..].
+  - intros b o k d. rewrite Ho. destruct (decide (b = a)) as [->|Hne].
+    + rewrite lookup_insert. intros [= <-]. apply Hk.
+    + rewrite lookup_insert_ne //. intros H1 H2.
+      replace (committed j1 b o k) with (committed j b o k); [by eapply W2|].
+      unfold committed, db_stor. by rewrite Hd Hx.
+  - intros b. rewrite Ho Hd Hx. destruct (decide (b = a)) as [->|Hne].
+    + by rewrite lookup_insert.
+    + rewrite lookup_insert_ne //. apply W3.
+Qed.
+
+Lemma committed_upd j j1 a o o' k :
+  j_db j1 = j_db j → j_destruct j1 = j_destruct j → o_pending o' = o_pending o →
+  committed j1 a o' k = committed j a o k.
+Proof. intros Hd Hx Hp. unfold committed, db_stor. by rewrite Hd Hx Hp. Qed.
+
+Local Ltac e3 x := destruct x; unf; rj; done.
+Lemma prim_wfc j j1 : wfc j → prim j j1 → wfc j1.
+Proof.
+  intros W P. pose proof W as [W1 W2 W3]. destruct P.
+  - apply (wfc_upd j _ a (new_object None)); [done|e3 j|e3 j|e3 j|..].
+    + apply (mloc_upd j _ a KCreate 0); [done|]. e3 j.
+    + intros k d. by rewrite lookup_empty.
+  - apply (wfc_upd j _ a (o <| o_data ::= (λ d, d <| a_bal := v |>) |>)); [done|e3 j|e3 j|e3 j|..].
+    + apply (mloc_upd j _ a KBalance (a_bal (o_data o))); [done|].
+      destruct j; unf; rj. by rewrite lookup_insert insert_insert.
+    + intros k d Hd. rewrite (committed_upd j _ a o); [e3 j|e3 j|by destruct o|].
+      apply (W2 a o k d H). by destruct o.
+  - apply (wfc_upd j _ a (o <| o_data ::= (λ d, d <| a_nonce := v |>) |>)); [done|e3 j|e3 j|e3 j|..].
+    + apply (mloc_upd j _ a KNonce (a_nonce (o_data o))); [done|].
+      destruct j; unf; rj. by rewrite lookup_insert insert_insert.
+    + intros k d Hd. rewrite (committed_upd j _ a o); [e3 j|e3 j|by destruct o|].
+      apply (W2 a o k d H). by destruct o.
+  - apply (wfc_upd j _ a (o <| o_data ::= (λ d, d <| a_code := v |>) |>)); [done|e3 j|e3 j|e3 j|..].
+    + apply (mloc_upd j _ a KCode (a_code (o_data o))); [done|].
+      destruct j; unf; rj. by rewrite lookup_insert insert_insert.
+    + intros k d Hd. rewrite (committed_upd j _ a o); [e3 j|e3 j|by destruct o|].
+      apply (W2 a o k d H). by destruct o.
+  - apply (wfc_upd j _ a (set_state k v (committed j a o k) o)); [done|e3 j|e3 j|e3 j|..].
+    + apply (mloc_upd j _ a KStorage 0); [done|]. e3 j.
+    + intros k' d. rewrite (committed_upd j _ a o); [e3 j|e3 j|unfold set_state; destruct (v =? committed j a o k); by destruct o|].
+      unfold set_state. destruct (v =? committed j a o k) eqn:Ev.
+      * destruct o; rs. intros [Hne Hl]%lookup_delete_Some. by eapply (W2 a _ k' d H).
+      * destruct o; rs. destruct (decide (k' = k)) as [->|Hne].
+        -- rewrite lookup_insert. intros [= <-]. by apply N.eqb_neq in Ev.
+        -- rewrite lookup_insert_ne //. intros Hl. by eapply (W2 a _ k' d H).
+  - apply (wfc_upd j _ a (o <| o_sd := true |>)); [done|e3 j|e3 j|e3 j|..].
+    + apply (mloc_upd j _ a KSelfDestruct 0); [done|]. e3 j.
+    + intros k d Hd. rewrite (committed_upd j _ a o); [e3 j|e3 j|by destruct o|].
+      apply (W2 a o k d H). by destruct o.
+  - apply (wfc_upd j _ a (o <| o_new := true |>)); [done|e3 j|e3 j|e3 j|..].
+    + intros b m. replace (j_muts (j_append (JCreateContract a) (put_obj a (o <| o_new := true |>) j))) with (j_muts j); [apply W1|].
+      e3 j.
+    + intros k d Hd. rewrite (committed_upd j _ a o); [e3 j|e3 j|by destruct o|].
+      apply (W2 a o k d H). by destruct o.
+  - unfold touch_change. rewrite bool_decide_false //.
+    apply (wfc_upd j _ a o); [done|e3 j|e3 j|..].
+    + destruct j; unf; rj; simpl. by rewrite insert_id.
+    + apply (mloc_upd j _ a KTouch 0); [done|]. e3 j.
+    + intros k d Hd. rewrite (committed_upd j _ a o); [e3 j|e3 j|done|].
+      by apply (W2 a o k d H0).
+  - eapply wfc_sem; [apply sem_eq_sym; exact H0|done].
+Qed.
+
+(* ------------------------------------------------------------------ *)
+(* forward reachability from the state at the start of a transaction *)
+Inductive Fwd (s0 : jstate) : jstate → Prop :=
+| Fwd0 j : core_eq j s0 → Fwd s0 j
+| FwdS j j1 j' : Fwd s0 j → prim j j1 → core_eq j' j1 → Fwd s0 j'.
+
+Lemma Fwd_proper s0 j j2 : Fwd s0 j → core_eq j2 j → Fwd s0 j2.
+Proof.
+  intros F H. destruct F as [j H0|j j1 j' F P H1].
+  - apply Fwd0. by eapply core_eq_trans.
+  - eapply FwdS; [exact F|exact P|by eapply core_eq_trans].
+Qed.
+
+Lemma fwd_prim s0 j j1 : Fwd s0 j → prim j j1 → Fwd s0 j1.
+Proof. intros F P. eapply FwdS; [exact F|exact P|done]. Qed.
+
+Lemma fwd_wfc s0 j : wfc s0 → Fwd s0 j → wfc j.
+Proof.
+  intros W0 F. induction F as [j H|j j1 j' F IH P H].
+  - eapply wfc_sem; [apply sem_eq_sym, H|done].
+  - eapply wfc_sem; [apply sem_eq_sym, H|]. by eapply prim_wfc.
+Qed.
+
+(* forward reachability is closed under one step of journal.revert, hence under
+   RevertToSnapshot to any depth: every state a transaction can be in is one that the
+   journalled calls alone could have produced *)
+Lemma fwd_undo1 s0 j : wfc s0 → j_entries s0 = [] → Fwd s0 j → Fwd s0 (undo1 j).
+Proof.
+  intros W0 E0 F. destruct F as [j H|j j1 j' F P H].
+  - assert (E : j_entries j = []) by (destruct H as [_ ->]; done).
+    unfold undo1. rewrite E. by apply Fwd0.
+  - eapply Fwd_proper; [exact F|].
+    eapply core_eq_trans; [apply undo1_core, H|].
+    apply prim_undo; [by eapply fwd_wfc|done].
+Qed.
+
+Lemma fwd_revert_n s0 n j : wfc s0 → j_entries s0 = [] → Fwd s0 j → Fwd s0 (revert_n n j).
+Proof.
+  intros W0 E0. revert j. induction n as [|n IH]; intros j F; [done|].
+  rewrite revert_n_S. destruct (j_entries j); [done|]. by apply IH, fwd_undo1.
+Qed.
+
+Lemma fwd_gon s0 j a :
+  wfc s0 → Fwd s0 j →
+  Fwd s0 (get_or_new_j a j).1 ∧ j_objs (get_or_new_j a j).1 !! a = Some (get_or_new_j a j).2.
+Proof.
+  intros W0 F. unfold get_or_new_j. destruct (j_objs j !! a) as [o|] eqn:Ho; simpl; [done|].
+  split; [by eapply fwd_prim, P_create|]. destruct j; unf; rj; simpl. by rewrite lookup_insert.
+Qed.
+
+Lemma fwd_other s0 j j' e :
+  Fwd s0 j → noncore e = true → sem_eq j' j → j_entries j' = e :: j_entries j → Fwd s0 j'.
+Proof. intros F N S E. eapply fwd_prim; [exact F|]. by eapply P_other. Qed.
+
+Local Ltac oth x e := eapply (fwd_other _ _ _ e); [eassumption|done|destruct x; unf; rj; done|destruct x; unf; rj; done].
+
+Theorem step_fwd s0 j o :
+  wfc s0 → Fwd s0 j → core_op o = true → op_ok j o = true → sticky_j j o = false →
+  Fwd s0 (step_j j o).1.
+Proof.
+  intros W0 F Hc Hok Hst. destruct o; try done; simpl in *.
+  - apply bool_decide_eq_true in Hok. by eapply fwd_prim, P_create.
+  - destruct (j_objs j !! a) as [o|] eqn:Ho; simpl; [|done].
+    destruct (o_new o) eqn:Hn; simpl; [done|]. by eapply fwd_prim, P_cc.
+  - destruct (fwd_gon s0 j a W0 F) as [F1 H1]. destruct (get_or_new_j a j) as [j1 o] eqn:Eg. simpl in *.
+    destruct (v =? 0) eqn:Ev; simpl.
+    + destruct (obj_empty o) eqn:Ee; [|done]. eapply fwd_prim; [exact F1|]. eapply P_touch; [|exact H1].
+      intros ->. unfold get_or_new_j in Eg. rewrite bool_decide_true // in Hst. simpl in Hst.
+      destruct (j_objs j !! ripemd) eqn:Ho; injection Eg as <- <-; [by rewrite Ee in Hst|done].
+    + by eapply fwd_prim, P_bal.
+  - destruct (fwd_gon s0 j a W0 F) as [F1 H1]. destruct (get_or_new_j a j) as [j1 o] eqn:Eg. simpl in *.
+    destruct (v =? 0); simpl; [done|]. by eapply fwd_prim, P_bal.
+  - destruct (fwd_gon s0 j a W0 F) as [F1 H1]. destruct (get_or_new_j a j) as [j1 o] eqn:Eg. simpl in *.
+    by eapply fwd_prim, P_bal.
+  - destruct (fwd_gon s0 j a W0 F) as [F1 H1]. destruct (get_or_new_j a j) as [j1 o] eqn:Eg. simpl in *.
+    by eapply fwd_prim, P_nonce.
+  - destruct (fwd_gon s0 j a W0 F) as [F1 H1]. destruct (get_or_new_j a j) as [j1 o] eqn:Eg. simpl in *.
+    by eapply fwd_prim, P_code.
+  - destruct (fwd_gon s0 j a W0 F) as [F1 H1]. destruct (get_or_new_j a j) as [j1 o] eqn:Eg. simpl in *.
+    destruct (get_state j1 a o k =? v); simpl; [done|]. by eapply fwd_prim, P_state.
+  - destruct (default 0 (j_tstor j !! (a, k)) =? v); simpl; [done|].
+    oth j (JTransient a k (default 0 (j_tstor j !! (a, k)))).
+  - destruct (j_objs j !! a) as [o|] eqn:Ho; simpl; [|done].
+    destruct (o_sd o) eqn:Hs; simpl; [done|]. by eapply fwd_prim, P_sd.
+  - destruct (j_objs j !! a) as [o|] eqn:Ho; simpl; [|done].
+    destruct (o_new o && negb (o_sd o)) eqn:Hs; simpl; [|done].
+    apply andb_true_iff in Hs as [_ Hs%negb_true_iff]. by eapply fwd_prim, P_sd.
+  - unfold al_add_address. destruct (j_ala j !! a); simpl; [done|]. oth j (JALAddr a).
+  - unfold al_add_slot. destruct (j_ala j !! a) as [idx|]; simpl.
+    + destruct (idx =? -1)%Z; simpl; [oth j (JALSlot a k)|].
+      destruct (j_als j !! Z.to_nat idx); simpl; [|eapply Fwd_proper; [exact F|by destruct j]].
+      case_bool_decide; simpl; [done|]. oth j (JALSlot a k).
+    + eapply (fwd_other _ (j_append (JALAddr a) (j <| j_ala ::= <[a := Z.of_nat (length (j_als j))]> |> <| j_als ::= (λ l, l ++ [{[k]}]) |>)) _ (JALSlot a k));
+        [|done|destruct j; unf; rj; done|destruct j; unf; rj; done].
+      oth j (JALAddr a).
+  - oth j (JRefund (j_refund j)).
+  - destruct (j_refund j <? g); simpl; oth j (JRefund (j_refund j)).
+  - oth j (JAddLog (j_th j)).
+Qed.
+
+(* ------------------------------------------------------------------ *)
+(* the stash invariant: what journal.mutations and the state objects say about the
+   values at the start of the transaction *)
+Definition pre_data (s0 : jstate) (a : addr) : acct := default acct0 (o_data <$> j_objs s0 !! a).
+Definition pre_pend (s0 : jstate) (a : addr) : gmap slot word := default ∅ (o_pending <$> j_objs s0 !! a).
+
+(* "a stash holds the pre-tx value whenever set; when it is not set the field still has
+   its pre-tx value" *)
+Definition stash_ok (s : option N) (cur pre : N) : Prop :=
+  match s with Some v => v = pre | None => cur = pre end.
+
+Definition Qa (s0 : jstate) (a : addr) (o : sobj) (m : mstate) (inm : bool) : Prop :=
+  o_pending o = pre_pend s0 a
+  ∧ stash_ok (s_bal m) (a_bal (o_data o)) (a_bal (pre_data s0 a))
+  ∧ stash_ok (s_nonce m) (a_nonce (o_data o)) (a_nonce (pre_data s0 a))
+  ∧ stash_ok (s_code m) (a_code (o_data o)) (a_code (pre_data s0 a))
+  ∧ (inm = false → o_dirty o = ∅)
+  ∧ (o_origin o = None → a ∈ j_destruct s0 ∨ j_db s0 !! a = None).
+
+Definition in_muts (j : jstate) (a : addr) : bool := bool_decide (is_Some (j_muts j !! a)).
+
+Record Q (s0 j : jstate) : Prop := {
+  q_db : j_db j = j_db s0;
+  q_destruct : j_destruct j = j_destruct s0;
+  q_none : ∀ a, j_objs j !! a = None → j_objs s0 !! a = None ∧ j_muts j !! a = None;
+  q_obj : ∀ a o, j_objs j !! a = Some o → Qa s0 a o (mstate_for a j) (in_muts j a)
+}.
+
+Lemma Q_sem s0 j j' : sem_eq j j' → Q s0 j → Q s0 j'.
+Proof.
+  intros (Hd & Ho & Hx & Hm) [Q1 Q2 Q3 Q4]. split.
+  - by rewrite -Hd. - by rewrite -Hx.
+  - intros a. rewrite -Ho -Hm. apply Q3.
+  - intros a o. unfold mstate_for, in_muts. rewrite -Ho -Hm. apply Q4.
+Qed.
+
+Lemma Q_upd s0 j j1 a o' :
+  Q s0 j → j_db j1 = j_db j → j_destruct j1 = j_destruct j → j_objs j1 = <[a := o']> (j_objs j) →
+  (∀ b, b ≠ a → j_muts j1 !! b = j_muts j !! b) →
+  Qa s0 a o' (mstate_for a j1) (in_muts j1 a) → Q s0 j1.
+Proof.
+  intros [Q1 Q2 Q3 Q4] Hd Hx Ho Hm Ha. split.
+  - by rewrite Hd. - by rewrite Hx.
+  - intros b. rewrite Ho. destruct (decide (b = a)) as [->|Hne]; [by rewrite lookup_insert|].
+    rewrite lookup_insert_ne // Hm //. apply Q3.
+  - intros b o. rewrite Ho. destruct (decide (b = a)) as [->|Hne].
+    + rewrite lookup_insert. by intros [= <-].
+    + rewrite lookup_insert_ne //. unfold mstate_for, in_muts. rewrite Hm //. apply Q4.
+Qed.
+
+Lemma s_add k m : s_bal (m_add k m) = s_bal m ∧ s_nonce (m_add k m) = s_nonce m ∧ s_code (m_add k m) = s_code m.
+Proof. destruct m; destruct k; unfold m_add; rs; done. Qed.
+
+Lemma stash_other k v m : k ≠ KBalance → k ≠ KNonce → k ≠ KCode → stash_k k v m = m.
+Proof. destruct k; unfold stash_k; done. Qed.
+
+Lemma in_muts_insert j1 j a m : j_muts j1 = <[a := m]> (j_muts j) → in_muts j1 a = true.
+Proof. intros E. unfold in_muts. rewrite E lookup_insert. by apply bool_decide_eq_true. Qed.
+Lemma mstate_for_insert j1 j a m : j_muts j1 = <[a := m]> (j_muts j) → mstate_for a j1 = m.
+Proof. intros E. unfold mstate_for. by rewrite E lookup_insert. Qed.
+
+Local Ltac e5 x := destruct x; unf; rj; done.
+Local Ltac mne x := let b := fresh in let Hb := fresh in intros b Hb; destruct x; unf; rj; simpl; rewrite ?lookup_insert_ne //.
+
+Lemma prim_Q s0 j j1 : wfc j → Q s0 j → prim j j1 → Q s0 j1.
+Proof.
+  intros W Hq P. pose proof Hq as [Q1 Q2 Q3 Q4]. destruct P.
+  - (* create *)
+    assert (E : j_muts (create_object a j) = <[a := m_add KCreate (stash_k KCreate 0 (mstate_for a j))]> (j_muts j)) by e5 j.
+    destruct (Q3 a H) as [H0 Hm0].
+    apply (Q_upd s0 j _ a (new_object None)); [done|e5 j|e5 j|e5 j|mne j|].
+    rewrite (mstate_for_insert _ _ _ _ E) (in_muts_insert _ _ _ _ E).
+    unfold Qa. destruct (s_add KCreate (stash_k KCreate 0 (mstate_for a j))) as (-> & -> & ->).
+    rewrite stash_other //. unfold mstate_for. rewrite Hm0. unfold Qa, pre_pend, pre_data. rewrite H0. simpl.
+    repeat split; try done. intros _. rewrite -Q1 -Q2. by apply W.
+  - (* balance *)
+    assert (E : j_muts (obj_set_balance a o v j) = <[a := m_add KBalance (stash_k KBalance (a_bal (o_data o)) (mstate_for a j))]> (j_muts j)).
+    { destruct j; unf; rj. by rewrite lookup_insert insert_insert. }
+    destruct (Q4 a o H) as (A1 & A2 & A3 & A4 & A5 & A6).
+    apply (Q_upd s0 j _ a (o <| o_data ::= (λ d, d <| a_bal := v |>) |>)); [done|e5 j|e5 j|e5 j| |].
+    { intros b Hb. destruct j; unf; rj; simpl. rewrite !lookup_insert_ne //. }
+    rewrite (mstate_for_insert _ _ _ _ E) (in_muts_insert _ _ _ _ E).
+    unfold Qa. destruct (s_add KBalance (stash_k KBalance (a_bal (o_data o)) (mstate_for a j))) as (-> & -> & ->).
+    unfold Qa. destruct o as [oo [n b c] dd pp sd nw]; simpl in *. unfold stash_k.
+    destruct (mstate_for a j) as [? ? ? ? ? ? ? sb sn sc]; simpl in *. destruct sb; rs; repeat split; done.
+  - (* nonce *)
+    assert (E : j_muts (obj_set_nonce a o v j) = <[a := m_add KNonce (stash_k KNonce (a_nonce (o_data o)) (mstate_for a j))]> (j_muts j)).
+    { destruct j; unf; rj. by rewrite lookup_insert insert_insert. }
+    destruct (Q4 a o H) as (A1 & A2 & A3 & A4 & A5 & A6).
+    apply (Q_upd s0 j _ a (o <| o_data ::= (λ d, d <| a_nonce := v |>) |>)); [done|e5 j|e5 j|e5 j| |].
+    { intros b Hb. destruct j; unf; rj; simpl. rewrite !lookup_insert_ne //. }
+    rewrite (mstate_for_insert _ _ _ _ E) (in_muts_insert _ _ _ _ E).
+    unfold Qa. destruct (s_add KNonce (stash_k KNonce (a_nonce (o_data o)) (mstate_for a j))) as (-> & -> & ->).
+    unfold Qa. destruct o as [oo [n b c] dd pp sd nw]; simpl in *. unfold stash_k.
+    destruct (mstate_for a j) as [? ? ? ? ? ? ? sb sn sc]; simpl in *. destruct sn; rs; repeat split; done.
+  - (* code *)
+    assert (E : j_muts (obj_set_code a o v j) = <[a := m_add KCode (stash_k KCode (a_code (o_data o)) (mstate_for a j))]> (j_muts j)).
+    { destruct j; unf; rj. by rewrite lookup_insert insert_insert. }
+    destruct (Q4 a o H) as (A1 & A2 & A3 & A4 & A5 & A6).
+    apply (Q_upd s0 j _ a (o <| o_data ::= (λ d, d <| a_code := v |>) |>)); [done|e5 j|e5 j|e5 j| |].
+    { intros b Hb. destruct j; unf; rj; simpl. rewrite !lookup_insert_ne //. }
+    rewrite (mstate_for_insert _ _ _ _ E) (in_muts_insert _ _ _ _ E).
+    unfold Qa. destruct (s_add KCode (stash_k KCode (a_code (o_data o)) (mstate_for a j))) as (-> & -> & ->).
+    unfold Qa. destruct o as [oo [n b c] dd pp sd nw]; simpl in *. unfold stash_k.
+    destruct (mstate_for a j) as [? ? ? ? ? ? ? sb sn sc]; simpl in *. destruct sc; rs; repeat split; done.
+  - (* storage *)
+    assert (E : j_muts (obj_set_state a o k v j) = <[a := m_add KStorage (stash_k KStorage 0 (mstate_for a j))]> (j_muts j)) by e5 j.
+    destruct (Q4 a o H) as (A1 & A2 & A3 & A4 & A5 & A6).
+    apply (Q_upd s0 j _ a (set_state k v (committed j a o k) o)); [done|e5 j|e5 j|e5 j|mne j|].
+    rewrite (mstate_for_insert _ _ _ _ E) (in_muts_insert _ _ _ _ E).
+    unfold Qa. destruct (s_add KStorage (stash_k KStorage 0 (mstate_for a j))) as (-> & -> & ->).
+    rewrite stash_other //. unfold Qa, set_state. destruct (v =? committed j a o k); destruct o; rs; repeat split; done.
+  - (* self-destruct *)
+    assert (E : j_muts (obj_self_destruct a o j) = <[a := m_add KSelfDestruct (stash_k KSelfDestruct 0 (mstate_for a j))]> (j_muts j)) by e5 j.
+    destruct (Q4 a o H) as (A1 & A2 & A3 & A4 & A5 & A6).
+    apply (Q_upd s0 j _ a (o <| o_sd := true |>)); [done|e5 j|e5 j|e5 j|mne j|].
+    rewrite (mstate_for_insert _ _ _ _ E) (in_muts_insert _ _ _ _ E).
+    unfold Qa. destruct (s_add KSelfDestruct (stash_k KSelfDestruct 0 (mstate_for a j))) as (-> & -> & ->).
+    rewrite stash_other //; try (destruct o; rs; repeat split; done).
+  - (* create contract *)
+    assert (E : j_muts (j_append (JCreateContract a) (put_obj a (o <| o_new := true |>) j)) = j_muts j) by e5 j.
+    destruct (Q4 a o H) as (A1 & A2 & A3 & A4 & A5 & A6).
+    apply (Q_upd s0 j _ a (o <| o_new := true |>)); [done|e5 j|e5 j|e5 j|by intros; rewrite E|].
+    unfold mstate_for, in_muts. rewrite E. unfold Qa. destruct o; rs; repeat split; done.
+  - (* touch *)
+    unfold touch_change. rewrite bool_decide_false //.
+    assert (E : j_muts (j_append (JTouch a) j) = <[a := m_add KTouch (stash_k KTouch 0 (mstate_for a j))]> (j_muts j)) by e5 j.
+    destruct (Q4 a o H0) as (A1 & A2 & A3 & A4 & A5 & A6).
+    apply (Q_upd s0 j _ a o); [done|e5 j|e5 j| |mne j|].
+    { destruct j; unf; rj; simpl. by rewrite insert_id. }
+    rewrite (mstate_for_insert _ _ _ _ E) (in_muts_insert _ _ _ _ E).
+    unfold Qa. destruct (s_add KTouch (stash_k KTouch 0 (mstate_for a j))) as (-> & -> & ->).
+    rewrite stash_other //.
+  - eapply Q_sem; [apply sem_eq_sym; exact H0|done].
+Qed.
+
+Theorem fwd_Q s0 j : wfc s0 → Q s0 s0 → Fwd s0 j → Q s0 j.
+Proof.
+  intros W0 Q0 F. induction F as [j H|j j1 j' F IH P H].
+  - eapply Q_sem; [apply sem_eq_sym, H|done].
+  - eapply Q_sem; [apply sem_eq_sym, H|]. eapply prim_Q; [by eapply fwd_wfc|exact IH|exact P].
+Qed.
+
+(* ------------------------------------------------------------------ *)
+(* the body of a transaction, at the level of the recording StateDB *)
+Definition body_op (j : jstate) (o : bop) : Prop :=
+  match o with
+  | BGet _ => True
+  | BOp OSnapshot => True
+  | BOp (ORevert _) => True
+  | BOp (OFinalise _) => False
+  | BOp (OTxStart _ _ _ _ _ _ _) => False
+  | BOp o => core_op o = true ∧ op_ok j o = true ∧ sticky_j j o = false
+  | BSetTx _ _ _ => False
+  | BPrepare _ _ _ _ _ => False
+  end.
+
+Fixpoint body_ok (b : bstate) (ops : list bop) : Prop :=
+  match ops with
+  | [] => True
+  | o :: rest => body_op (b_j b) o ∧ body_ok (step_b b o).1 rest
+  end.
+
+Lemma fwd_rec s0 f b : Fwd s0 (b_j b) → Fwd s0 (b_j (rec f b)).
+Proof. by destruct b. Qed.
+
+Lemma step_b_fwd s0 b o :
+  wfc s0 → j_entries s0 = [] → Fwd s0 (b_j b) → body_op (b_j b) o → Fwd s0 (b_j (step_b b o).1).
+Proof.
+  intros W0 E0 F Hb. destruct o as [o| | |q]; try done.
+  - destruct o; try done; simpl in Hb;
+      try (destruct Hb as (Hc & Hok & Hst); unfold step_b;
+           match goal with |- context [step_j ?j ?o] =>
+             pose proof (step_fwd s0 j o W0 F Hc Hok Hst) as F1; destruct (step_j j o) as [j1 w] end;
+           apply fwd_rec; destruct b; exact F1).
+    + (* Snapshot *) destruct b as [j ? ?]; simpl in *.
+      eapply Fwd_proper; [exact F|]. by destruct j.
+    + (* Revert *) destruct b as [j ? ?]; simpl in *.
+      destruct (find_revision id (j_revs j)) as [[idx rest]|]; simpl; [|done].
+      eapply Fwd_proper; [apply (fwd_revert_n s0 (length (j_entries j) - idx) j W0 E0 F)|].
+      unfold revert_to. by destruct (revert_n (length (j_entries j) - idx) j).
+Qed.
+
+Theorem run_b_fwd s0 b ops :
+  wfc s0 → j_entries s0 = [] → Fwd s0 (b_j b) → body_ok b ops → Fwd s0 (b_j (run_b b ops)).
+Proof.
+  intros W0 E0. revert b. induction ops as [|o rest IH]; intros b F H; [done|].
+  destruct H as [H1 H2]. simpl. apply IH; [|done]. by apply step_b_fwd.
+Qed.
+
+(* the state between two transactions: journal reset, nothing dirty *)
+Record tx_boundary (j : jstate) : Prop := {
+  tb_wfc : wfc j;
+  tb_entries : j_entries j = [];
+  tb_muts : j_muts j = ∅;
+  tb_dirty : ∀ a o, j_objs j !! a = Some o → o_dirty o = ∅;
+  tb_origin : ∀ a o, j_objs j !! a = Some o → o_origin o = None → a ∈ j_destruct j ∨ j_db j !! a = None
+}.
+
+Lemma Q_start s0 : tx_boundary s0 → Q s0 s0.
+Proof.
+  intros [W E M D O]. split; [done|done|..].
+  - intros a H. split; [done|]. by rewrite M.
+  - intros a o H. unfold Qa, mstate_for, pre_pend, pre_data. rewrite M lookup_empty H. simpl.
+    repeat split; try done. + intros _. by eapply D. + by eapply O.
+Qed.
+
+Lemma tx_boundary_init db : tx_boundary (init_j db).
+Proof.
+  split; simpl; try done.
+  - split; simpl.
+    + intros a m. by rewrite lookup_empty.
+    + intros a o k d (x & <- & _)%lookup_fmap_Some Hd. simpl in Hd. by apply lookup_empty_Some in Hd.
+    + intros a. rewrite lookup_fmap fmap_None. by right.
+  - intros a o (x & <- & _)%lookup_fmap_Some. done.
+  - intros a o (x & <- & _)%lookup_fmap_Some. done.
+Qed.
+
+(* The stash invariant at every point of every transaction: whatever journalled calls,
+   getters, Snapshots and RevertToSnapshots (to any live id, nested to any depth) a
+   transaction body consists of, journal.mutations and the state objects satisfy Q. *)
+Theorem stash_invariant s0 b ops :
+  tx_boundary s0 → core_eq (b_j b) s0 → body_ok b ops → Q s0 (b_j (run_b b ops)) ∧ wfc (b_j (run_b b ops)).
+Proof.
+  intros T H Hb. pose proof T as [W E _ _ _].
+  assert (F : Fwd s0 (b_j (run_b b ops))) by (apply run_b_fwd; [done|done|by apply Fwd0|done]).
+  split; [apply fwd_Q; [done|by apply Q_start|done]|by eapply fwd_wfc].
+Qed.
+
+(* ------------------------------------------------------------------ *)
+(* one iteration of finaliseAmsterdam's loop: the account fields *)
+Definition obal (oc : option caccess) : gmap N word := default ∅ (ca_bal <$> oc).
+Definition ononce (oc : option caccess) : gmap N N := default ∅ (ca_nonce <$> oc).
+Definition ocode (oc : option caccess) : gmap N N := default ∅ (ca_code <$> oc).
+
+Lemma fin_writes_fields idx d oc :
+  obal (fin_writes idx d oc) = obal oc ∧ ononce (fin_writes idx d oc) = ononce oc ∧ ocode (fin_writes idx d oc) = ocode oc.
+Proof. unfold fin_writes. case_bool_decide; [done|]. by destruct oc. Qed.
+
+Definition upd_if (idx post pre : N) (m : gmap N N) : gmap N N :=
+  if post =? pre then m else <[idx := post]> m.
+
+Lemma rec_changes_spec idx m post oc (pre : acct) :
+  let d := match post with Some o => o_data o | None => acct0 end in
+  (∀ v, s_bal m = Some v → v = a_bal pre) → (s_bal m = None → a_bal d = a_bal pre) →
+  (∀ v, s_nonce m = Some v → v = a_nonce pre) → (s_nonce m = None → a_nonce d = a_nonce pre) →
+  (∀ v, s_code m = Some v → v = a_code pre) → (s_code m = None → a_code d = a_code pre) →
+  obal (rec_changes idx m post oc) = upd_if idx (a_bal d) (a_bal pre) (obal oc)
+  ∧ ononce (rec_changes idx m post oc) = upd_if idx (a_nonce d) (a_nonce pre) (ononce oc)
+  ∧ ocode (rec_changes idx m post oc) = upd_if idx (a_code d) (a_code pre) (ocode oc).
+Proof.
+  intros d B1 B2 N1 N2 C1 C2. unfold rec_changes, upd_if. fold d.
+  destruct (s_bal m) as [pb|]; [rewrite -(B1 pb eq_refl)|rewrite (B2 eq_refl) N.eqb_refl];
+  (destruct (s_nonce m) as [pn|]; [rewrite -(N1 pn eq_refl)|rewrite (N2 eq_refl) N.eqb_refl]);
+  (destruct (s_code m) as [pc|]; [rewrite -(C1 pc eq_refl)|rewrite (C2 eq_refl) N.eqb_refl]);
+  repeat match goal with |- context [?x =? ?y] => destruct (x =? y) end; by destruct oc.
+Qed.
+
+(* Guard of the net-change statement at Finalise (established by the EVM: only contracts
+   created in the same transaction self-destruct, EIP-6780 + the create collision rules):
+   a self-destructed object had nonce 0 and no code before the transaction, and the
+   account its origin describes is blank *)
+Definition sd_guard (s0 j : jstate) (a : addr) (o : sobj) : Prop :=
+  o_sd o = true →
+  a_nonce (pre_data s0 a) = 0 ∧ a_code (pre_data s0 a) = 0 ∧
+  match o_origin o with Some x => a_nonce x = 0 ∧ a_code x = 0 | None => True end.
+
+Theorem fin_rec_fields s0 j r idx a o oc :
+  Q s0 j → j_objs j !! a = Some o → rAms r = true → sd_guard s0 j a o →
+  let d := match fin_obj r o with Some o' => o_data o' | None => acct0 end in
+  let oc' := fin_rec r idx (mstate_for a j) o oc in
+  obal oc' = upd_if idx (a_bal d) (a_bal (pre_data s0 a)) (obal oc)
+  ∧ ononce oc' = upd_if idx (a_nonce d) (a_nonce (pre_data s0 a)) (ononce oc)
+  ∧ ocode oc' = upd_if idx (a_code d) (a_code (pre_data s0 a)) (ocode oc).
+Proof.
+  intros Hq Ho Hr Hg d oc'. destruct (q_obj _ _ Hq a o Ho) as (A1 & A2 & A3 & A4 & A5 & A6).
+  subst oc'. unfold fin_rec.
+  set (oc1 := if o_sd o then oc else if r158 r && obj_empty o then oc else fin_writes idx (o_dirty o) oc).
+  assert (E1 : obal oc1 = obal oc ∧ ononce oc1 = ononce oc ∧ ocode oc1 = ocode oc).
+  { subst oc1. destruct (o_sd o); [done|]. destruct (r158 r && obj_empty o); [done|]. apply fin_writes_fields. }
+  destruct E1 as (<- & <- & <-).
+  unfold stash_ok in A2, A3, A4.
+  apply rec_changes_spec; fold d.
+  - intros v E. by rewrite E in A2.
+  - intros E. rewrite E in A2. rewrite -A2. subst d. unfold fin_obj. rewrite Hr.
+    destruct (o_sd o); [destruct (a_bal (o_data o) =? 0) eqn:Eb; simpl; [by apply N.eqb_eq in Eb|by destruct (o_origin o)]|].
+    destruct (r158 r && obj_empty o) eqn:Ee; [|by destruct o].
+    apply andb_true_iff in Ee as [_ Ee]. unfold obj_empty, acct_empty in Ee.
+    apply andb_true_iff in Ee as [Ee _]. apply andb_true_iff in Ee as [_ Ee]. by apply N.eqb_eq in Ee.
+  - intros v E. by rewrite E in A3.
+  - intros E. rewrite E in A3. subst d. unfold fin_obj. rewrite Hr.
+    destruct (o_sd o) eqn:Es.
+    { destruct (Hg Es) as (G1 & G2 & G3). rewrite G1.
+      destruct (a_bal (o_data o) =? 0); simpl; [done|]. by destruct (o_origin o) as [x|]; [destruct G3|]. }
+    rewrite -A3. destruct (r158 r && obj_empty o) eqn:Ee; [|by destruct o].
+    apply andb_true_iff in Ee as [_ Ee]. unfold obj_empty, acct_empty in Ee.
+    apply andb_true_iff in Ee as [Ee _]. apply andb_true_iff in Ee as [Ee _]. by apply N.eqb_eq in Ee.
+  - intros v E. by rewrite E in A4.
+  - intros E. rewrite E in A4. subst d. unfold fin_obj. rewrite Hr.
+    destruct (o_sd o) eqn:Es.
+    { destruct (Hg Es) as (G1 & G2 & G3). rewrite G2.
+      destruct (a_bal (o_data o) =? 0); simpl; [done|]. by destruct (o_origin o) as [x|]; [destruct G3|]. }
+    rewrite -A4. destruct (r158 r && obj_empty o) eqn:Ee; [|by destruct o].
+    apply andb_true_iff in Ee as [_ Ee]. unfold obj_empty, acct_empty in Ee.
+    apply andb_true_iff in Ee as [_ Ee]. by apply N.eqb_eq in Ee.
+Qed.
+
+(* the loop as a whole is this iteration at every address of journal.mutations whose
+   object exists, and the identity elsewhere *)
+Lemma fin_bal_lookup r idx j L a :
+  fin_bal r idx j L !! a =
+    match j_muts j !! a, j_objs j !! a with
+    | Some m, Some o => fin_rec r idx m o (L !! a)
+    | _, _ => L !! a
+    end.
+Proof.
+  unfold fin_bal. rewrite lookup_merge lookup_merge.
+  destruct (j_muts j !! a) as [m|]; destruct (j_objs j !! a) as [o|]; destruct (L !! a) eqn:EL; simpl; rewrite ?EL; done.
+Qed.
+
+(* ------------------------------------------------------------------ *)
+(* storage: a slot is dirty at the end of the transaction exactly when its value differs
+   from the value at the start of the transaction (A -> B -> A leaves no dirty entry) *)
+Definition view_state (j : jstate) (a : addr) (k : slot) : word :=
+  match j_objs j !! a with Some o => get_state j a o k | None => 0 end.
+
+Lemma committed_pre s0 j a o k :
+  tx_boundary s0 → Q s0 j → j_objs j !! a = Some o → committed j a o k = view_state s0 a k.
+Proof.
+  intros T Hq Ho. destruct (q_obj _ _ Hq a o Ho) as (A1 & _). pose proof Hq as [Qd Qx _ _].
+  unfold view_state, committed, db_stor. rewrite A1 Qd Qx. unfold pre_pend.
+  destruct (j_objs s0 !! a) as [o0|] eqn:E0; simpl.
+  - unfold get_state. rewrite (tb_dirty _ T a o0 E0) lookup_empty. done.
+  - rewrite lookup_empty. destruct (wc_eager _ (tb_wfc _ T) a E0) as [Hx|Hd].
+    + by rewrite bool_decide_true.
+    + rewrite Hd. by case_bool_decide.
+Qed.
+
+Theorem dirty_iff_changed s0 j a o k v :
+  tx_boundary s0 → Q s0 j → wfc j → j_objs j !! a = Some o →
+  o_dirty o !! k = Some v ↔ view_state j a k = v ∧ v ≠ view_state s0 a k.
+Proof.
+  intros T Hq W Ho. rewrite -(committed_pre s0 j a o k T Hq Ho). unfold view_state. rewrite Ho. unfold get_state.
+  split.
+  - intros Hd. rewrite Hd. split; [done|]. by eapply (wc_dirty _ W).
+  - destruct (o_dirty o !! k) as [d|]; intros [H1 H2]; [by subst|by subst].
+Qed.
+
+(* stateObject.finalise records one write per dirty slot and removes those slots from the reads *)
+Definition owrites (oc : option caccess) : gmap slot (gmap N word) := default ∅ (ca_writes <$> oc).
+Definition oreads (oc : option caccess) : gset slot := default ∅ (ca_reads <$> oc).
+
+Lemma fin_writes_spec idx dirty oc k :
+  owrites (fin_writes idx dirty oc) !! k =
+    match dirty !! k with
+    | Some v => Some (<[idx := v]> (default ∅ (owrites oc !! k)))
+    | None => owrites oc !! k
+    end
+  ∧ oreads (fin_writes idx dirty oc) = oreads oc ∖ dom dirty.
+Proof.
+  unfold fin_writes. case_bool_decide as E.
+  - subst. rewrite lookup_empty dom_empty_L. split; [done|]. set_solver.
+  - unfold acc_upd, owrites, oreads, ca_fin_writes. simpl.
+    assert (E1 : ca_writes (default ca0 oc) = default ∅ (ca_writes <$> oc)) by (by destruct oc).
+    assert (E2 : ca_reads (default ca0 oc) = default ∅ (ca_reads <$> oc)) by (by destruct oc).
+    destruct (default ca0 oc) as [w rd b n c]; simpl in *. subst. split; [|done].
+    rewrite lookup_merge. destruct (dirty !! k); destruct (default ∅ (ca_writes <$> oc) !! k); done.
+Qed.
+
+(* ------------------------------------------------------------------ *)
+(* ToEncodingObj: strictly ascending (hence duplicate-free) at every level *)
+Definition ltk {A} (key : A → N) (x y : A) : Prop := key x < key y.
+
+Lemma ss_le_nodup_lt (l : list N) : StronglySorted N.le l → NoDup l → StronglySorted N.lt l.
+Proof.
+  induction 1 as [|x l Hs IH Hf]; intros Hn; [constructor|].
+  apply NoDup_cons in Hn as [Hx Hn]. constructor; [by apply IH|].
+  apply Forall_forall. intros y Hy. rewrite Forall_forall in Hf. specialize (Hf y Hy).
+  assert (x ≠ y) by (intros ->; done). lia.
+Qed.
+
+Lemma sorted_keys_ss {V} (m : gmap N V) : StronglySorted N.lt (sorted_keys m).
+Proof.
+  unfold sorted_keys. apply ss_le_nodup_lt.
+  - apply (StronglySorted_merge_sort N.le).
+  - rewrite merge_sort_Permutation. apply NoDup_fst_map_to_list.
+Qed.
+
+Lemma sorted_elems_ss (s : gset N) : StronglySorted N.lt (sorted_elems s).
+Proof.
+  unfold sorted_elems. apply ss_le_nodup_lt.
+  - apply (StronglySorted_merge_sort N.le).
+  - rewrite merge_sort_Permutation. apply NoDup_elements.
+Qed.
+
+Lemma omap_ss {A} (key : A → N) (g : N → option A) (l : list N) :
+  (∀ a y, g a = Some y → key y = a) → StronglySorted N.lt l → StronglySorted (ltk key) (omap g l).
+Proof.
+  intros Hk. induction 1 as [|x l Hs IH Hf]; simpl; [constructor|].
+  destruct (g x) as [y|] eqn:E; [|done]. constructor; [done|].
+  apply Forall_forall. intros z Hz. apply elem_of_list_omap in Hz as (a & Ha & Hg).
+  rewrite Forall_forall in Hf. unfold ltk. rewrite (Hk _ _ E) (Hk _ _ Hg). by apply Hf.
+Qed.
+
+Lemma sorted_pairs_ss {V W} (f : V → W) (m : gmap N V) : StronglySorted (ltk fst) (sorted_pairs f m).
+Proof.
+  unfold sorted_pairs. apply omap_ss; [|apply sorted_keys_ss].
+  intros a y. destruct (m !! a); simpl; [|done]. by intros [= <-].
+Qed.
+
+(* every level of the encoding object of ANY construction list is strictly ascending *)
+Theorem to_encoding_sorted code_of (L : cbal) :
+  StronglySorted (ltk aa_addr) (to_encoding_obj code_of L)
+  ∧ Forall (λ e, StronglySorted (ltk fst) (aa_changes e)
+                 ∧ Forall (λ sc, StronglySorted (ltk fst) (snd sc)) (aa_changes e)
+                 ∧ StronglySorted N.lt (aa_reads e)
+                 ∧ StronglySorted (ltk fst) (aa_bal e) ∧ StronglySorted (ltk fst) (aa_nonce e)
+                 ∧ StronglySorted (ltk fst) (aa_code e)) (to_encoding_obj code_of L).
+Proof.
+  split.
+  - unfold to_encoding_obj. apply omap_ss; [|apply sorted_keys_ss].
+    intros a y. destruct (L !! a) eqn:EL; rewrite ?EL; simpl; [|done]. by intros [= <-].
+  - apply Forall_forall. intros e He. unfold to_encoding_obj in He.
+    apply elem_of_list_omap in He as (a & _ & Hg). destruct (L !! a) as [c|] eqn:EL; rewrite ?EL in Hg; simpl in Hg; [|done]. injection Hg as <-.
+    simpl. repeat split; try apply sorted_pairs_ss; try apply sorted_elems_ss.
+    apply Forall_forall. intros sc Hsc. unfold sorted_pairs in Hsc.
+    apply elem_of_list_omap in Hsc as (k & _ & Hk). destruct (ca_writes c !! k) eqn:Ew; rewrite ?Ew in Hk; simpl in Hk; [|done]. injection Hk as <-.
+    apply sorted_pairs_ss.
+Qed.
+
+(* ------------------------------------------------------------------ *)
+(* assembled statements *)
+Theorem net_changes_fields s0 b ops r idx L a :
+  tx_boundary s0 → core_eq (b_j b) s0 → body_ok b ops → rAms r = true →
+  let j := b_j (run_b b ops) in
+  (∀ o, j_objs j !! a = Some o → sd_guard s0 j a o) →
+  let R := fin_bal r idx j L in
+  match j_muts j !! a, j_objs j !! a with
+  | Some m, Some o =>
+      let d := match fin_obj r o with Some o' => o_data o' | None => acct0 end in
+      obal (R !! a) = upd_if idx (a_bal d) (a_bal (pre_data s0 a)) (obal (L !! a))
+      ∧ ononce (R !! a) = upd_if idx (a_nonce d) (a_nonce (pre_data s0 a)) (ononce (L !! a))
+      ∧ ocode (R !! a) = upd_if idx (a_code d) (a_code (pre_data s0 a)) (ocode (L !! a))
+  | _, _ => R !! a = L !! a
+  end.
+Proof.
+  intros T H Hb Hr j Hg R. destruct (stash_invariant s0 b ops T H Hb) as [Hq W]. fold j in Hq, W.
+  subst R. rewrite fin_bal_lookup.
+  destruct (j_muts j !! a) as [m|] eqn:Em; destruct (j_objs j !! a) as [o|] eqn:Eo; try done.
+  assert (Emm : m = mstate_for a j) by (unfold mstate_for; by rewrite Em). subst m.
+  by apply (fin_rec_fields s0 j r idx a o (L !! a) Hq Eo Hr (Hg o eq_refl)).
+Qed.
+
+Theorem storage_net_writes s0 b ops a o k v :
+  tx_boundary s0 → core_eq (b_j b) s0 → body_ok b ops →
+  let j := b_j (run_b b ops) in
+  j_objs j !! a = Some o →
+  (o_dirty o !! k = Some v ↔ view_state j a k = v ∧ v ≠ view_state s0 a k).
+Proof.
+  intros T H Hb j Ho. destruct (stash_invariant s0 b ops T H Hb) as [Hq W].
+  by apply dirty_iff_changed.
+Qed.
+
+(* a concrete history for the non-vacuity example: balance change; slot 0 A->B->A;
+   slot 1 written in a reverted frame; slot 2 and account 2 only read *)
+Definition r_ams : rules := {| r158 := true; rAms := true; r2929 := true; rShanghai := true |}.
+Definition sample_ops : list bop :=
+  [BSetTx 1 0 1; BPrepare r_ams 1 2 None []; BOp (OSetBalance 1 5); BOp (OSetState 1 0 9); BOp OSnapshot;
+   BOp (OSetState 1 1 7); BOp (ORevert 0); BOp (OSetState 1 0 0); BOp (OSetState 1 3 4); BGet (QBalance 2);
+   BGet (QState 1 2); BOp (OFinalise r_ams)].
+Definition sample_ret : option cbal :=
+  match foldl (λ bw o, step_b bw.1 o) (init_b ∅, BOut RNone) sample_ops with
+  | (_, BFin r) => r
+  | _ => None
+  end.
+Definition sample_expected : bal :=
+  [ {| aa_addr := 1; aa_changes := [(3, [(1, 4)])]; aa_reads := [0; 1; 2]; aa_bal := [(1, 5)]; aa_nonce := []; aa_code := [] |};
+    {| aa_addr := 2; aa_changes := []; aa_reads := []; aa_bal := []; aa_nonce := []; aa_code := [] |} ].
+Definition sample_history_check : bool :=
+  match sample_ret with
+  | Some L => bool_decide (encode (to_encoding_obj (λ _, []) L) = encode sample_expected)
+  | None => false
+  end.
